@@ -135,6 +135,9 @@ type W struct {
 	Op      string
 	A, B, C int64
 	Obj     interface{}
+	// RO is set while arguments of the current case live in a read-only mapping (props/ro.go): a memory fault inside
+	// a library function is then a store into an argument.
+	RO bool
 
 	heartbeat atomic.Uint64
 	tid       atomic.Int64
@@ -299,6 +302,9 @@ func (w *W) fail(sig string, detail D, inconclusive bool) {
 		Detail: b, Count: 1, Inconclusive: inconclusive})
 }
 
+// Idx is the index of the case being executed (drivers derive deterministic per-case choices from it).
+func (w *W) Idx() int { return w.idx }
+
 // Failed reports whether this worker has recorded any violation (drivers may cut work short).
 func (w *W) Failed() bool { return len(w.viols) > 0 }
 
@@ -307,7 +313,7 @@ func (w *W) Failed() bool { return len(w.viols) > 0 }
 // starts in harness code is a harness problem and makes the run inconclusive.
 func (w *W) runCase(f *Family, idx int) {
 	w.fam, w.idx = f, idx
-	w.Op, w.A, w.B, w.C, w.Obj = "", 0, 0, 0, nil
+	w.Op, w.A, w.B, w.C, w.Obj, w.RO = "", 0, 0, 0, nil, false
 	w.Rng.Reseed(w.Cfg.Seed, w.Cfg.Prop, f.Name, idx)
 	w.heartbeat.Add(1)
 	defer func() {
@@ -318,6 +324,9 @@ func (w *W) runCase(f *Family, idx int) {
 				"obj": fmt.Sprintf("%.600v", w.Obj), "origin": origin, "stack": trimStack(st)}
 			msg := fmt.Sprint(r)
 			switch {
+			case w.RO && strings.Contains(msg, "invalid memory address") && (strings.Contains(origin, "github.com/openacid/low") || strings.Contains(origin, "/repo/")):
+				d["note"] = "the arguments of this call live in a read-only mapping: the library stored into an argument (possibly meaning to undo it before returning)"
+				w.Fail("store-into-read-only-argument/"+f.Name+"/"+w.Op, d)
 			case strings.Contains(origin, "github.com/openacid/low") || strings.Contains(origin, "/repo/"):
 				w.Fail("panic/"+f.Name+"/"+w.Op, d)
 			case w.Op != "" && (strings.Contains(msg, "index out of range") || strings.Contains(msg, "slice bounds out of range") || strings.Contains(msg, "nil pointer dereference")):
